@@ -77,4 +77,71 @@ def runModel (m : Model) : IO UInt32 := do
   IO.println s!"SUMMARY cases={d.cases} steps={d.steps} mismatches={d.mism}"
   return 0
 
+
+/-! ### nondeterministic models (timers may fire at any time)
+
+`step` returns every (state, observation) the model allows for the op; the driver keeps the set
+of states consistent with what the implementation showed. A case disagrees when the set becomes
+empty. -/
+
+structure NModel where
+  σ : Type
+  init : List String → Option σ
+  step : σ → List String → List (σ × String)
+  /-- used to keep the candidate set small -/
+  dedup : List σ → List σ
+
+structure NDrv (σ : Type) where
+  caseId   : String := ""
+  cands    : List σ := []
+  expected : Option (List (σ × String)) := none
+  lastOp   : String := ""
+  stepNo   : Nat := 0
+  failed   : Bool := false
+  cases    : Nat := 0
+  steps    : Nat := 0
+  mism     : Nat := 0
+  maxCands : Nat := 0
+
+partial def nloop (m : NModel) (h : IO.FS.Stream) (d : NDrv m.σ) : IO (NDrv m.σ) := do
+  let raw ← h.getLine
+  if raw.isEmpty then return d
+  let line := (raw.dropEndWhile (fun c => c == '\n' || c == '\r')).toString
+  if line.startsWith "case " then
+    nloop m h { d with caseId := dropPrefix line 5, cands := [], expected := none, stepNo := 0,
+                       failed := false, cases := d.cases + 1 }
+  else if d.failed then nloop m h d
+  else if line.startsWith "init " || line == "init" then
+    match m.init (words (dropPrefix line 4)) with
+    | some s => nloop m h { d with cands := [s] }
+    | none =>
+      IO.println s!"MISMATCH case={d.caseId} step=0 op=[{line}] model=[bad-init] impl=[]"
+      nloop m h { d with failed := true, mism := d.mism + 1 }
+  else if line.startsWith "op " then
+    let ws := words (dropPrefix line 3)
+    let nexts := d.cands.foldl (fun acc s => acc ++ m.step s ws) []
+    if nexts.isEmpty then
+      IO.println s!"MISMATCH case={d.caseId} step={d.stepNo + 1} op=[{line}] model=[bad-op] impl=[]"
+      nloop m h { d with failed := true, mism := d.mism + 1 }
+    else
+      nloop m h { d with expected := some nexts, lastOp := line, stepNo := d.stepNo + 1, steps := d.steps + 1 }
+  else if line.startsWith "obs " || line == "obs" then
+    let got := dropPrefix line 4
+    match d.expected with
+    | some nexts =>
+      let ok := m.dedup ((nexts.filter (·.2 == got)).map (·.1))
+      if ok.isEmpty then
+        let shown := match nexts with | x :: _ => x.2 | [] => ""
+        IO.println s!"MISMATCH case={d.caseId} step={d.stepNo} op=[{d.lastOp}] model=[{shown}] impl=[{got}] alternatives={nexts.length}"
+        nloop m h { d with failed := true, mism := d.mism + 1 }
+      else nloop m h { d with cands := ok, expected := none, maxCands := max d.maxCands ok.length }
+    | none => nloop m h d
+  else nloop m h d
+
+def runNModel (m : NModel) : IO UInt32 := do
+  let h ← IO.getStdin
+  let d ← nloop m h {}
+  IO.println s!"SUMMARY cases={d.cases} steps={d.steps} mismatches={d.mism} maxcands={d.maxCands}"
+  return 0
+
 end Rie.Oracle
